@@ -1,12 +1,17 @@
-//! Capability probe: call `clone()` on a consuming iterator **iff** its concrete type happens
-//! to implement `Clone` (today none does). Uses autoref specialisation, which only resolves on
-//! concrete types, hence the `Any` round trip out of the generic executor.
+//! Capability probes: call a trait method on a consuming iterator **iff** its concrete type
+//! happens to implement the trait (today none of these is implemented). A realistic change is
+//! adding `Clone`, `PartialOrd`/`Ord` or `AsRef<[T]>` to `IntoIter` (by derive or by hand) in a
+//! way that copies or reads slots that were already yielded. Uses autoref specialisation, which
+//! only resolves on concrete types, hence the `Any` round trip out of the generic executor.
 
 use std::any::Any;
+use std::cmp::Ordering;
 
 use crate::tok::Tok;
 
 pub struct Wrap<'a, T>(pub &'a T);
+
+// ---- Clone ----
 pub trait ViaClone<T> {
     fn try_clone_probe(&self) -> Option<T>;
 }
@@ -24,28 +29,100 @@ impl<'a, T> ViaNone<T> for &Wrap<'a, T> {
     }
 }
 
-macro_rules! probe_types {
-    ($it:ident, $I:ty; $($T:ty,)+) => {
-        $(
-            if let Some(c) = ($it as &dyn Any).downcast_ref::<$T>() {
-                let r: Option<$T> = (&Wrap(c)).try_clone_probe();
-                return r.map(|c| {
-                    let b: Box<dyn Any> = Box::new(c);
-                    *b.downcast::<$I>().ok().expect("probe: type round trip")
-                });
-            }
-        )+
-    };
+// ---- PartialOrd (covers Ord as well: Ord requires PartialOrd) ----
+pub trait ViaOrd {
+    fn try_cmp_probe(&self) -> Option<Option<Ordering>>;
+}
+impl<'a, T: PartialOrd> ViaOrd for Wrap<'a, T> {
+    fn try_cmp_probe(&self) -> Option<Option<Ordering>> {
+        Some(self.0.partial_cmp(self.0))
+    }
+}
+pub trait ViaNoOrd {
+    fn try_cmp_probe(&self) -> Option<Option<Ordering>>;
+}
+impl<'a, T> ViaNoOrd for &Wrap<'a, T> {
+    fn try_cmp_probe(&self) -> Option<Option<Ordering>> {
+        None
+    }
+}
+
+// ---- AsRef<[Tok]> (a slice view of the remaining elements, like std's vec::IntoIter) ----
+pub trait ViaSlice {
+    fn try_slice_probe(&self) -> Option<Vec<(u32, u32)>>;
+}
+impl<'a, T: AsRef<[Tok]>> ViaSlice for Wrap<'a, T> {
+    fn try_slice_probe(&self) -> Option<Vec<(u32, u32)>> {
+        // plain field reads, no callback
+        Some(self.0.as_ref().iter().map(|t| (t.id, t.val)).collect())
+    }
+}
+pub trait ViaNoSlice {
+    fn try_slice_probe(&self) -> Option<Vec<(u32, u32)>>;
+}
+impl<'a, T> ViaNoSlice for &Wrap<'a, T> {
+    fn try_slice_probe(&self) -> Option<Vec<(u32, u32)>> {
+        None
+    }
 }
 
 type II<V> = <V as IntoIterator>::IntoIter;
 use vek::vec::repr_c::*;
 
+macro_rules! for_iter_types {
+    ($it:ident, $c:ident => $body:expr; $($T:ty,)+) => {
+        $(
+            if let Some($c) = ($it as &dyn Any).downcast_ref::<$T>() {
+                return $body;
+            }
+        )+
+    };
+}
+
+macro_rules! all_iter_types {
+    ($it:ident, $c:ident => $body:expr) => {
+        for_iter_types!($it, $c => $body;
+            II<Vec2<Tok>>, II<Vec3<Tok>>, II<Vec4<Tok>>, II<Vec8<Tok>>, II<Vec16<Tok>>, II<Vec32<Tok>>, II<Vec64<Tok>>,
+            II<Extent2<Tok>>, II<Extent3<Tok>>, II<Rgb<Tok>>, II<Rgba<Tok>>, II<Uv<Tok>>, II<Uvw<Tok>>,
+            II<Vec2<Vec2<Tok>>>, II<Vec3<Vec3<Tok>>>, II<Vec4<Vec4<Tok>>>,
+        );
+    };
+}
+
 pub fn try_clone_iter<I: 'static>(it: &I) -> Option<I> {
-    probe_types!(it, I;
+    macro_rules! probe_types {
+        ($($T:ty,)+) => {
+            $(
+                if let Some(c) = (it as &dyn Any).downcast_ref::<$T>() {
+                    let r: Option<$T> = (&Wrap(c)).try_clone_probe();
+                    return r.map(|c| {
+                        let b: Box<dyn Any> = Box::new(c);
+                        *b.downcast::<I>().ok().expect("probe: type round trip")
+                    });
+                }
+            )+
+        };
+    }
+    probe_types!(
         II<Vec2<Tok>>, II<Vec3<Tok>>, II<Vec4<Tok>>, II<Vec8<Tok>>, II<Vec16<Tok>>, II<Vec32<Tok>>, II<Vec64<Tok>>,
         II<Extent2<Tok>>, II<Extent3<Tok>>, II<Rgb<Tok>>, II<Rgba<Tok>>, II<Uv<Tok>>, II<Uvw<Tok>>,
         II<Vec2<Vec2<Tok>>>, II<Vec3<Vec3<Tok>>>, II<Vec4<Vec4<Tok>>>,
+    );
+    None
+}
+
+/// `it.partial_cmp(it)` iff the iterator type is `PartialOrd`. Outer `None` = not implemented.
+pub fn try_cmp_iter<I: 'static>(it: &I) -> Option<Option<Ordering>> {
+    all_iter_types!(it, c => (&Wrap(c)).try_cmp_probe());
+    None
+}
+
+/// `it.as_ref()` as `&[Tok]` iff the iterator type is `AsRef<[Tok]>`: the (id, val) pairs it shows.
+/// (Only for element type `Tok`; an iterator over row vectors is not probed.)
+pub fn try_slice_iter<I: 'static>(it: &I) -> Option<Vec<(u32, u32)>> {
+    for_iter_types!(it, c => (&Wrap(c)).try_slice_probe();
+        II<Vec2<Tok>>, II<Vec3<Tok>>, II<Vec4<Tok>>, II<Vec8<Tok>>, II<Vec16<Tok>>, II<Vec32<Tok>>, II<Vec64<Tok>>,
+        II<Extent2<Tok>>, II<Extent3<Tok>>, II<Rgb<Tok>>, II<Rgba<Tok>>, II<Uv<Tok>>, II<Uvw<Tok>>,
     );
     None
 }
